@@ -34,6 +34,8 @@ package keeper
 //@ ghost pos.burns (Array Bytes Int)
 //@ ghost pos.burnq (Array Bytes Bool)
 //@ ghost pos.stakesum Int
+//@ ghost pos.proposer Bytes
+//@ ghost pos.proposerset Bool
 
 // records are stored under their own address, and a validator's consensus key hashes to it
 //@ invariant valinv: forall a Bytes :: pos.has[a] ==> pos.vals[a].Address == a && pk_addr(pos.vals[a].PublicKey) == a && val(pos.vals[a].StakedTokens) >= 0
@@ -110,6 +112,14 @@ package keeper
 //@   mode value
 //@   modifies pos.awards[address], pos.awardq[address], pos.awardsum
 //@   ensures pos.awards[address] == val(amount) && pos.awardq[address] && pos.awardsum == old(pos.awardsum) - old(pos.awards[address]) + val(amount)
+//@ assumed func (k Keeper) GetPreviousProposer(ctx sdk.Ctx) (address sdk.Address)
+//@   mode value
+//@   panics when !pos.proposerset
+//@   ensures address == pos.proposer
+//@ assumed func (k Keeper) SetPreviousProposer(ctx sdk.Ctx, address sdk.Address)
+//@   mode value
+//@   modifies pos.proposer, pos.proposerset
+//@   ensures pos.proposer == address && pos.proposerset
 //@ assumed func (k Keeper) getValidatorBurn(ctx sdk.Ctx, address sdk.Address) (coins sdk.Dec, found bool)
 //@   mode value
 //@   ensures val(coins) == pos.burns[address]
@@ -317,6 +327,7 @@ package keeper
 //@   uses valinv
 //@   requires pp_unstaking_time >= 0 && address != nil
 //@   ensures err == nil && v.Address != nil ==> val(slashFactor) >= 0 && infractionHeight <= ctx_height(ctx) && pos.has[address] && v == pos.vals[address] && v.Status != 0
+//@   ensures [sumbound] err == nil && v.Address != nil ==> val(v.StakedTokens) <= pos.stakesum
 //@   ensures err == nil && v.Address == nil ==> !pos.has[address]
 //@   ensures err != nil ==> val(slashFactor) < 0 || infractionHeight > ctx_height(ctx) || (pos.has[address] && pos.vals[address].Status == 0)
 //@
@@ -327,7 +338,7 @@ package keeper
 //@   props C07 C04 C02 C05 C06
 //@   uses bankinv valinv idxinv queueinv mininv
 //@   requires pp_unstaking_time >= 0 && pp_minstake >= 0 && address != nil && power >= 0 && val(slashFactor) <= pow10(18)
-//@   requires modreg("staked_tokens_pool") && modperm("staked_tokens_pool", "burner") && (pos.has[address] ==> amt(auth.bal[modaddr("staked_tokens_pool")], pp_denom) >= val(pos.vals[address].StakedTokens))   // C04: the pool backs the stake
+//@   requires modreg("staked_tokens_pool") && modperm("staked_tokens_pool", "burner") && amt(auth.bal[modaddr("staked_tokens_pool")], pp_denom) >= pos.stakesum   // C04: the pool backs the stake
 //@   modifies acct.id, acct.next, acct.coins, acct.addr, auth.bal[modaddr("staked_tokens_pool")], auth.has[modaddr("staked_tokens_pool")], auth.supply
 //@   modifies pos.vals[address], pos.has[address], pos.idx[address], pos.stakesum, pos.queue[pos.vals[address].UnstakingCompletionTime]
 //@   dead ret4
@@ -342,7 +353,7 @@ package keeper
 //@          ==> val(pos.vals[address].StakedTokens) == 0 && pos.vals[address].Status == 0
 //@   ensures [failed] err != nil ==> pos.vals[address] == old(pos.vals[address]) && pos.has[address] == old(pos.has[address]) && auth.supply == old(auth.supply) && auth.bal[modaddr("staked_tokens_pool")] == old(auth.bal[modaddr("staked_tokens_pool")])
 //@   ensures [jailed] pos.has[address] && old(pos.has[address]) ==> pos.vals[address].Jailed == old(pos.vals[address]).Jailed && pos.vals[address].Address == old(pos.vals[address]).Address && pos.vals[address].PublicKey == old(pos.vals[address]).PublicKey
-//@   ensures [stillbacked] pos.has[address] ==> amt(auth.bal[modaddr("staked_tokens_pool")], pp_denom) >= val(pos.vals[address].StakedTokens)
+//@   ensures [stillbacked] amt(auth.bal[modaddr("staked_tokens_pool")], pp_denom) >= pos.stakesum
 //@   ensures [burnt] err == nil ==> amt(old(auth.supply), pp_denom) - amt(auth.supply, pp_denom) == old(val(pos.vals[address].StakedTokens)) - val(pos.vals[address].StakedTokens)
 //@
 // C07: queued burn severities accumulate per address
@@ -360,12 +371,14 @@ package keeper
 //@   requires pp_unstaking_time >= 0 && pp_minstake >= 0 && modreg("staked_tokens_pool") && modperm("staked_tokens_pool", "burner")
 //@   requires amt(auth.bal[modaddr("staked_tokens_pool")], pp_denom) >= pos.stakesum     // C04
 //@   requires forall a Bytes :: pos.burnq[a] ==> pos.has[a] && a != nil && pos.burns[a] <= pow10(18)
-//@   modifies everything
-//@   keeps pos.awards pos.awardq pos.awardsum pos.sinfo pos.sinfohas pos.missed
+//@   modifies acct.id, acct.next, acct.coins, acct.addr, auth.bal[modaddr("staked_tokens_pool")], auth.has[modaddr("staked_tokens_pool")], auth.supply
+//@   modifies pos.vals, pos.has, pos.idx, pos.stakesum, pos.queue, pos.burns, pos.burnq, pit.pos, pit.len, pit.key, pit.val, pit.at, pit.sum
 //@   loop 1 frame
 //@   loop 1 decreases pit.len[iterator] - pit.pos[iterator]
 //@   loop 1 invariant 0 <= pit.pos[iterator] && pit.pos[iterator] <= pit.len[iterator]
 //@   loop 1 maintains bankinv valinv idxinv queueinv mininv
+//@   loop 1 invariant pos.sinfo == old(pos.sinfo) && pos.sinfohas == old(pos.sinfohas) && pos.missed == old(pos.missed) && pos.awards == old(pos.awards) && pos.awardq == old(pos.awardq) && pos.awardsum == old(pos.awardsum) && pos.proposer == old(pos.proposer) && pos.proposerset == old(pos.proposerset)
+//@   loop 1 invariant forall a Bytes :: a != modaddr("staked_tokens_pool") ==> auth.has[a] == old(auth.has[a])
 //@   loop 1 invariant forall a Bytes :: pos.burnq[a] == (old(pos.burnq[a]) && pit.at[iterator][a] >= pit.pos[iterator])
 //@   loop 1 invariant forall a Bytes :: pos.burns[a] == ite(pos.burnq[a], old(pos.burns[a]), 0)
 //@   loop 1 invariant forall a Bytes :: pos.burnq[a] ==> pos.has[a] && pos.vals[a] == old(pos.vals[a])
@@ -406,11 +419,14 @@ package keeper
 //@   props C08
 //@   uses bankinv valinv idxinv queueinv mininv
 //@   requires pp_window > 0 && pp_unstaking_time >= 0 && pp_minstake >= 0 && addr != nil && power >= 0 && 0 <= pp_slash_downtime && pp_slash_downtime <= pow10(18)
-//@   requires pos.sinfohas[addr] ==> pos.sinfo[addr].IndexOffset >= 0 && pos.sinfo[addr].IndexOffset < 9223372036854775807 && pos.sinfo[addr].MissedBlocksCounter >= 0 && pos.sinfo[addr].MissedBlocksCounter < 9223372036854775807
-//@   requires 0 <= pos.sinfo[addr].StartHeight && pos.sinfo[addr].StartHeight + pp_window <= 9223372036854775807 && 0 <= rhe(pp_minsigned_raw * pp_window, pow10(18)) && rhe(pp_minsigned_raw * pp_window, pow10(18)) <= pp_window
+//@   requires pos.sinfohas[addr] ==> pos.sinfo[addr].IndexOffset >= 0 && pos.sinfo[addr].IndexOffset < 9223372036854775807 && pos.sinfo[addr].MissedBlocksCounter > 0 - 9223372036854775807 && pos.sinfo[addr].MissedBlocksCounter < 9223372036854775807
+//@   requires (pos.sinfohas[addr] ==> 0 <= pos.sinfo[addr].StartHeight && pos.sinfo[addr].StartHeight + pp_window <= 9223372036854775807) && 0 <= rhe(pp_minsigned_raw * pp_window, pow10(18)) && rhe(pp_minsigned_raw * pp_window, pow10(18)) <= pp_window
 //@   modifies acct.id, acct.next, acct.coins, acct.addr, auth.bal[modaddr("staked_tokens_pool")], auth.has[modaddr("staked_tokens_pool")], auth.supply
-//@   requires modreg("staked_tokens_pool") && modperm("staked_tokens_pool", "burner") && (pos.has[addr] ==> amt(auth.bal[modaddr("staked_tokens_pool")], pp_denom) >= val(pos.vals[addr].StakedTokens))   // C04: the pool backs the stake
+//@   requires modreg("staked_tokens_pool") && modperm("staked_tokens_pool", "burner") && amt(auth.bal[modaddr("staked_tokens_pool")], pp_denom) >= pos.stakesum   // C04: the pool backs the stake
 //@   modifies pos.vals[addr], pos.has[addr], pos.idx[addr], pos.stakesum, pos.sinfo[addr], pos.sinfohas[addr], pos.missed[addr], pos.queue[pos.vals[addr].UnstakingCompletionTime]
+//@   ensures [bounds] old(pos.sinfohas[addr]) && pos.sinfohas[addr] && 0 <= pos.sinfo[addr].IndexOffset && pos.sinfo[addr].IndexOffset <= old(pos.sinfo[addr].IndexOffset) + 1 && pos.sinfo[addr].StartHeight == old(pos.sinfo[addr].StartHeight)
+//@   ensures [backed] amt(auth.bal[modaddr("staked_tokens_pool")], pp_denom) - pos.stakesum == old(amt(auth.bal[modaddr("staked_tokens_pool")], pp_denom) - pos.stakesum)
+//@   ensures [supply] amt(auth.supply, pp_denom) - amt(auth.bal[modaddr("staked_tokens_pool")], pp_denom) == old(amt(auth.supply, pp_denom) - amt(auth.bal[modaddr("staked_tokens_pool")], pp_denom))
 //@   ensures [counter] pos.sinfo[addr].MissedBlocksCounter == 0 || pos.sinfo[addr].MissedBlocksCounter == old(pos.sinfo[addr].MissedBlocksCounter) + ite(!signed, 1, 0) - ite(old(pos.missed[addr][old(pos.sinfo[addr].IndexOffset) % pp_window]), 1, 0)
 //@   ensures [punished] (ctx_height(ctx) > old(pos.sinfo[addr].StartHeight) + pp_window
 //@        && old(pos.sinfo[addr].MissedBlocksCounter) + ite(!signed, 1, 0) - ite(old(pos.missed[addr][old(pos.sinfo[addr].IndexOffset) % pp_window]), 1, 0) > pp_window - rhe(pp_minsigned_raw * pp_window, pow10(18))
@@ -452,19 +468,21 @@ package keeper
 //@   uses bankinv awardinv
 //@   requires modreg("staked_tokens_pool") && modperm("staked_tokens_pool", "minter")
 //@   requires forall a Bytes :: pos.awardq[a] ==> a != modaddr("staked_tokens_pool") && pos.awards[a] >= 0
-//@   modifies everything
-//@   keeps pos.vals pos.has pos.idx pos.queue pos.sinfo pos.sinfohas pos.missed pos.burns pos.stakesum
+//@   modifies acct.id, acct.next, acct.coins, acct.addr, auth.bal, auth.has, auth.supply, pos.awards, pos.awardq, pos.awardsum, pit.pos, pit.len, pit.key, pit.val, pit.at, pit.sum
 //@   loop 1 frame
 //@   loop 1 decreases pit.len[iterator] - pit.pos[iterator]
 //@   loop 1 invariant 0 <= pit.pos[iterator] && pit.pos[iterator] <= pit.len[iterator]
 //@   loop 1 maintains bankinv
+//@   loop 1 invariant pos.vals == old(pos.vals) && pos.has == old(pos.has) && pos.idx == old(pos.idx) && pos.queue == old(pos.queue) && pos.sinfo == old(pos.sinfo) && pos.sinfohas == old(pos.sinfohas) && pos.missed == old(pos.missed) && pos.burns == old(pos.burns) && pos.burnq == old(pos.burnq) && pos.stakesum == old(pos.stakesum) && pos.proposer == old(pos.proposer) && pos.proposerset == old(pos.proposerset)
 //@   loop 1 invariant forall a Bytes :: pos.awardq[a] == (old(pos.awardq[a]) && pit.at[iterator][a] >= pit.pos[iterator])
 //@   loop 1 invariant forall a Bytes :: pos.awards[a] == ite(pos.awardq[a], old(pos.awards[a]), 0)
 //@   loop 1 invariant pos.awardsum == old(pos.awardsum) - pit.sum[iterator][pit.pos[iterator]]
 //@   loop 1 invariant forall a Bytes :: a != modaddr("staked_tokens_pool") ==> amt(auth.bal[a], pp_denom) == amt(old(auth.bal[a]), pp_denom) + ite(old(pos.awardq[a]) && pit.at[iterator][a] < pit.pos[iterator], old(pos.awards[a]), 0)
 //@   loop 1 invariant amt(auth.bal[modaddr("staked_tokens_pool")], pp_denom) == amt(old(auth.bal[modaddr("staked_tokens_pool")]), pp_denom)
 //@   loop 1 invariant amt(auth.supply, pp_denom) == amt(old(auth.supply), pp_denom) + pit.sum[iterator][pit.pos[iterator]]
+//@   loop 1 invariant forall a Bytes :: a != modaddr("staked_tokens_pool") && !(old(pos.awardq[a]) && pit.at[iterator][a] < pit.pos[iterator]) ==> auth.bal[a] == old(auth.bal[a])
 //@   ensures [emptied] forall a Bytes :: !pos.awardq[a] && pos.awards[a] == 0
+//@   ensures [untouched] forall a Bytes :: a != modaddr("staked_tokens_pool") && !old(pos.awardq[a]) ==> auth.bal[a] == old(auth.bal[a])
 //@   ensures [minted-each] forall a Bytes :: a != modaddr("staked_tokens_pool") ==> amt(auth.bal[a], pp_denom) == amt(old(auth.bal[a]), pp_denom) + old(pos.awards[a])
 //@   ensures [pool] amt(auth.bal[modaddr("staked_tokens_pool")], pp_denom) == amt(old(auth.bal[modaddr("staked_tokens_pool")]), pp_denom)
 //@   ensures [supply] amt(auth.supply, pp_denom) == amt(old(auth.supply), pp_denom) + old(pos.awardsum) && pos.awardsum == 0
@@ -489,7 +507,7 @@ package keeper
 //@   uses bankinv valinv idxinv queueinv mininv
 //@   requires pp_unstaking_time >= 0 && pp_minstake >= 0 && addr != nil && power >= 0 && 0 <= pp_slash_doublesign && pp_slash_doublesign <= pow10(18)
 //@   requires abs(ctx_time(ctx)) < pow2(62) && abs(timestamp) < pow2(62) && infractionHeight > 0 - 9223372036854775807
-//@   requires modreg("staked_tokens_pool") && modperm("staked_tokens_pool", "burner") && (pos.has[addr] ==> amt(auth.bal[modaddr("staked_tokens_pool")], pp_denom) >= val(pos.vals[addr].StakedTokens))   // C04
+//@   requires modreg("staked_tokens_pool") && modperm("staked_tokens_pool", "burner") && amt(auth.bal[modaddr("staked_tokens_pool")], pp_denom) >= pos.stakesum   // C04
 //@   modifies acct.id, acct.next, acct.coins, acct.addr, auth.bal[modaddr("staked_tokens_pool")], auth.has[modaddr("staked_tokens_pool")], auth.supply
 //@   modifies pos.vals[addr], pos.has[addr], pos.idx[addr], pos.stakesum, pos.sinfo[addr], pos.sinfohas[addr], pos.queue[pos.vals[addr].UnstakingCompletionTime]
 //@   ensures [ignored] ctx_time(ctx) - timestamp > pp_max_evidence_age ==> unchanged(pos, auth)
@@ -497,6 +515,58 @@ package keeper
 //@        && pos.sinfohas[addr] && pos.sinfo[addr].Tombstoned && pos.sinfo[addr].JailedUntil == types.DoubleSignJailEndTime
 //@   ensures [burnt] ctx_time(ctx) - timestamp <= pp_max_evidence_age ==> amt(auth.supply, pp_denom) == amt(old(auth.supply), pp_denom) - old(val(pos.vals[addr].StakedTokens))
 //@   ensures [backed] amt(auth.bal[modaddr("staked_tokens_pool")], pp_denom) - pos.stakesum == old(amt(auth.bal[modaddr("staked_tokens_pool")], pp_denom) - pos.stakesum)
+//@   ensures [supplypool] amt(auth.supply, pp_denom) - amt(auth.bal[modaddr("staked_tokens_pool")], pp_denom) == old(amt(auth.supply, pp_denom) - amt(auth.bal[modaddr("staked_tokens_pool")], pp_denom))
+
+// ---------------------------------------------------------------- abci.go
+// One BeginBlock: fees of the previous block to its proposer, queued awards minted once, queued burns applied once,
+// the new proposer recorded, every vote accounted, every double-sign evidence handled.
+//@ func BeginBlocker(ctx sdk.Ctx, req abci.RequestBeginBlock, k Keeper)
+//@   props C10 C04 C07 C08
+//@   uses bankinv valinv idxinv queueinv mininv awardinv burninv
+//@   requires pp_window > 0 && pp_unstaking_time >= 0 && pp_minstake >= 0 && 0 <= pp_slash_downtime && pp_slash_downtime <= pow10(18) && 0 <= pp_slash_doublesign && pp_slash_doublesign <= pow10(18)
+//@   requires 0 <= rhe(pp_minsigned_raw * pp_window, pow10(18)) && rhe(pp_minsigned_raw * pp_window, pow10(18)) <= pp_window
+//@   requires abs(ctx_time(ctx)) < pow2(62)
+//@   requires modreg("staked_tokens_pool") && modperm("staked_tokens_pool", "burner") && modperm("staked_tokens_pool", "minter") && modreg("pos") && modreg("fee_collector")
+//@   requires modaddr("fee_collector") != modaddr("pos") && modaddr("fee_collector") != modaddr("staked_tokens_pool") && modaddr("pos") != modaddr("staked_tokens_pool")
+//@   requires ctx_height(ctx) > 1 ==> pos.proposerset && pos.proposer != modaddr("pos") && pos.proposer != modaddr("fee_collector") && pos.proposer != modaddr("staked_tokens_pool")
+//@   requires amt(auth.bal[modaddr("staked_tokens_pool")], pp_denom) >= pos.stakesum     // C04
+//@   requires forall a Bytes :: pos.awardq[a] ==> a != modaddr("staked_tokens_pool") && a != modaddr("fee_collector") && a != modaddr("pos") && pos.awards[a] >= 0
+//@   requires forall a Bytes :: pos.burnq[a] ==> pos.has[a] && a != nil && pos.burns[a] <= pow10(18)
+//@   requires forall a Bytes :: pos.sinfohas[a] ==> 0 <= pos.sinfo[a].IndexOffset && pos.sinfo[a].IndexOffset + len(req.LastCommitInfo.Votes) < 9223372036854775807 && abs(pos.sinfo[a].MissedBlocksCounter) + len(req.LastCommitInfo.Votes) < 9223372036854775807 && 0 <= pos.sinfo[a].StartHeight && pos.sinfo[a].StartHeight + pp_window <= 9223372036854775807
+//@   requires forall i int :: 0 <= i && i < len(req.LastCommitInfo.Votes) ==> req.LastCommitInfo.Votes[i].Validator.Address != nil && req.LastCommitInfo.Votes[i].Validator.Power >= 0
+//@   requires forall i int :: 0 <= i && i < len(req.ByzantineValidators) ==> req.ByzantineValidators[i].Validator.Address != nil && req.ByzantineValidators[i].Validator.Power >= 0 && abs(req.ByzantineValidators[i].Time) < pow2(62) && req.ByzantineValidators[i].Height > 0 - 9223372036854775807
+//@   modifies everything
+//@   loop 1 frame
+//@   loop 2 frame
+//@   loop 1 invariant 0 - 1 <= #rangeindex && #rangeindex < len(req.LastCommitInfo.Votes)
+//@   loop 1 invariant forall a Bytes :: pos.sinfohas[a] ==> 0 <= pos.sinfo[a].IndexOffset && pos.sinfo[a].IndexOffset + (len(req.LastCommitInfo.Votes) - 1 - #rangeindex) < 9223372036854775807 && abs(pos.sinfo[a].MissedBlocksCounter) + (len(req.LastCommitInfo.Votes) - 1 - #rangeindex) < 9223372036854775807 && 0 <= pos.sinfo[a].StartHeight && pos.sinfo[a].StartHeight + pp_window <= 9223372036854775807
+//@   loop 1 maintains bankinv valinv idxinv queueinv mininv awardinv burninv
+//@   loop 1 invariant (forall a Bytes :: !pos.awardq[a] && pos.awards[a] == 0) && (forall a Bytes :: !pos.burnq[a] && pos.burns[a] == 0) && pos.proposerset && pos.proposer == req.Header.ProposerAddress
+//@   loop 1 invariant amt(auth.bal[modaddr("staked_tokens_pool")], pp_denom) - pos.stakesum == old(amt(auth.bal[modaddr("staked_tokens_pool")], pp_denom) - pos.stakesum)
+//@   loop 1 invariant amt(auth.supply, pp_denom) - amt(auth.bal[modaddr("staked_tokens_pool")], pp_denom) == old(amt(auth.supply, pp_denom) - amt(auth.bal[modaddr("staked_tokens_pool")], pp_denom)) + old(pos.awardsum)
+//@   loop 2 invariant 0 - 1 <= #rangeindex && #rangeindex < len(req.ByzantineValidators)
+//@   loop 2 maintains bankinv valinv idxinv queueinv mininv awardinv burninv
+//@   loop 2 invariant (forall a Bytes :: !pos.awardq[a] && pos.awards[a] == 0) && (forall a Bytes :: !pos.burnq[a] && pos.burns[a] == 0) && pos.proposerset && pos.proposer == req.Header.ProposerAddress
+//@   loop 2 invariant amt(auth.bal[modaddr("staked_tokens_pool")], pp_denom) - pos.stakesum == old(amt(auth.bal[modaddr("staked_tokens_pool")], pp_denom) - pos.stakesum)
+//@   loop 2 invariant amt(auth.supply, pp_denom) - amt(auth.bal[modaddr("staked_tokens_pool")], pp_denom) == old(amt(auth.supply, pp_denom) - amt(auth.bal[modaddr("staked_tokens_pool")], pp_denom)) + old(pos.awardsum)
+//@   loop 1 invariant (ctx_height(ctx) > 1 ==> (forall d Str :: amt(auth.bal[modaddr("fee_collector")], d) == 0))
+//@   loop 1 invariant (forall a Bytes :: a != modaddr("staked_tokens_pool") && a != modaddr("fee_collector") && a != modaddr("pos") && (ctx_height(ctx) <= 1 || a != old(pos.proposer)) ==> amt(auth.bal[a], pp_denom) == amt(old(auth.bal[a]), pp_denom) + old(pos.awards[a]))
+//@   loop 1 invariant (ctx_height(ctx) > 1 && old(pos.has[pos.proposer]) ==> amt(auth.bal[old(pos.proposer)], pp_denom) == amt(old(auth.bal[pos.proposer]), pp_denom) + amt(old(auth.bal[modaddr("fee_collector")]), pp_denom) + old(pos.awards[pos.proposer]) && amt(auth.bal[modaddr("pos")], pp_denom) == amt(old(auth.bal[modaddr("pos")]), pp_denom))
+//@   loop 1 invariant (ctx_height(ctx) > 1 && !old(pos.has[pos.proposer]) ==> amt(auth.bal[old(pos.proposer)], pp_denom) == amt(old(auth.bal[pos.proposer]), pp_denom) + old(pos.awards[pos.proposer]) && amt(auth.bal[modaddr("pos")], pp_denom) == amt(old(auth.bal[modaddr("pos")]), pp_denom) + amt(old(auth.bal[modaddr("fee_collector")]), pp_denom))
+//@   loop 2 invariant (ctx_height(ctx) > 1 ==> (forall d Str :: amt(auth.bal[modaddr("fee_collector")], d) == 0))
+//@   loop 2 invariant (forall a Bytes :: a != modaddr("staked_tokens_pool") && a != modaddr("fee_collector") && a != modaddr("pos") && (ctx_height(ctx) <= 1 || a != old(pos.proposer)) ==> amt(auth.bal[a], pp_denom) == amt(old(auth.bal[a]), pp_denom) + old(pos.awards[a]))
+//@   loop 2 invariant (ctx_height(ctx) > 1 && old(pos.has[pos.proposer]) ==> amt(auth.bal[old(pos.proposer)], pp_denom) == amt(old(auth.bal[pos.proposer]), pp_denom) + amt(old(auth.bal[modaddr("fee_collector")]), pp_denom) + old(pos.awards[pos.proposer]) && amt(auth.bal[modaddr("pos")], pp_denom) == amt(old(auth.bal[modaddr("pos")]), pp_denom))
+//@   loop 2 invariant (ctx_height(ctx) > 1 && !old(pos.has[pos.proposer]) ==> amt(auth.bal[old(pos.proposer)], pp_denom) == amt(old(auth.bal[pos.proposer]), pp_denom) + old(pos.awards[pos.proposer]) && amt(auth.bal[modaddr("pos")], pp_denom) == amt(old(auth.bal[modaddr("pos")]), pp_denom) + amt(old(auth.bal[modaddr("fee_collector")]), pp_denom))
+//@   ensures [fees] (ctx_height(ctx) > 1 ==> (forall d Str :: amt(auth.bal[modaddr("fee_collector")], d) == 0))
+//@   ensures [minted-each] (forall a Bytes :: a != modaddr("staked_tokens_pool") && a != modaddr("fee_collector") && a != modaddr("pos") && (ctx_height(ctx) <= 1 || a != old(pos.proposer)) ==> amt(auth.bal[a], pp_denom) == amt(old(auth.bal[a]), pp_denom) + old(pos.awards[a]))
+//@   ensures [proposer-paid] (ctx_height(ctx) > 1 && old(pos.has[pos.proposer]) ==> amt(auth.bal[old(pos.proposer)], pp_denom) == amt(old(auth.bal[pos.proposer]), pp_denom) + amt(old(auth.bal[modaddr("fee_collector")]), pp_denom) + old(pos.awards[pos.proposer]) && amt(auth.bal[modaddr("pos")], pp_denom) == amt(old(auth.bal[modaddr("pos")]), pp_denom))
+//@   ensures [unknown-proposer] (ctx_height(ctx) > 1 && !old(pos.has[pos.proposer]) ==> amt(auth.bal[old(pos.proposer)], pp_denom) == amt(old(auth.bal[pos.proposer]), pp_denom) + old(pos.awards[pos.proposer]) && amt(auth.bal[modaddr("pos")], pp_denom) == amt(old(auth.bal[modaddr("pos")]), pp_denom) + amt(old(auth.bal[modaddr("fee_collector")]), pp_denom))
+//@   ensures [awards-emptied] forall a Bytes :: !pos.awardq[a] && pos.awards[a] == 0
+//@   ensures [burns-emptied] forall a Bytes :: !pos.burnq[a] && pos.burns[a] == 0
+//@   ensures [proposer] pos.proposerset && pos.proposer == req.Header.ProposerAddress
+//@   ensures [backed] amt(auth.bal[modaddr("staked_tokens_pool")], pp_denom) - pos.stakesum == old(amt(auth.bal[modaddr("staked_tokens_pool")], pp_denom) - pos.stakesum)
+//@   ensures [supply] amt(auth.supply, pp_denom) - amt(auth.bal[modaddr("staked_tokens_pool")], pp_denom) == old(amt(auth.supply, pp_denom) - amt(auth.bal[modaddr("staked_tokens_pool")], pp_denom)) + old(pos.awardsum)
+//@
 
 // ---------------------------------------------------------------- account.go
 // C02/C11: a send moves exactly `amount` of the stake denomination from one account to the other, or nothing
